@@ -24,9 +24,20 @@ fn digest(variant: u32, msg: &[u8]) -> Vec<u8> {
                 3 => {
                     let mut h = $t::default();
                     digest::Update::update(&mut h, &[0x5au8; 200][..]);
+                    // counters far into a message (high word non-zero) before the reset
+                    let (cv, t, _, _) = h.verif_get_state();
+                    h.verif_set_state(cv, (t.0, 5), &[0x11u8; 3][..]);
                     digest::Reset::reset(&mut h);
                     digest::Update::update(&mut h, msg);
                     digest::FixedOutput::finalize_fixed(h).to_vec()
+                }
+                1 => {
+                    // the digest of a clone taken after the data was absorbed
+                    let mut h = $t::default();
+                    digest::Update::update(&mut h, msg);
+                    let c = h.clone();
+                    digest::Update::update(&mut h, b"x");
+                    digest::FixedOutput::finalize_fixed(c).to_vec()
                 }
                 _ => $t::digest(msg).to_vec(),
             }
